@@ -190,11 +190,21 @@ func VerifH_mldsa_mul() {
 	a := verifrt.Uint32("a")
 	b := verifrt.Uint32("b")
 	verifrt.Assume(a < q && b < q)
+	// reduceOnce is replaced by its specification, proven by VerifH_mldsa_reduceOnce.
+	verifrt.Summarize("mldsa.rZq).reduceOnce", func(x rZq) rZq {
+		verifrt.Assert(uint32(x) < 2*q, "reduceOnce summary precondition: argument < 2q")
+		if uint32(x) >= q {
+			return x - q
+		}
+		return x
+	})
 	verifrt.CutNext("prod", 0, (q-1)*(q-1))
 	verifrt.Tag("arith")
 	r := rZq(a).mul(rZq(b))
 	p := verifrt.CutValueOr("prod", uint64(a)*uint64(b))
 	verifrt.Assert(uint32(r) < q, "mul result in range")
-	verifrt.Assert(uint64(r) == p%q, "mul == prod mod q for every prod <= (q-1)^2")
+	// r == p mod q, phrased as (r < q  and  r <= p  and  q | p-r), which is equivalent and
+	// is the form the integer-blasting back end decides in well under a second.
+	verifrt.Assert(uint64(r) <= p && (p-uint64(r))%q == 0, "mul == prod mod q for every prod <= (q-1)^2")
 	verifrt.Reach("end")
 }
